@@ -11,6 +11,8 @@ import BiscuitModel.Lemmas.Authorizer
 import BiscuitModel.Props.C03
 import BiscuitModel.Props.C04
 import BiscuitModel.Props.C05
+import BiscuitModel.Props.C10
 import BiscuitModel.Props.C11
+import BiscuitModel.Model.Limits
 import BiscuitModel.Lemmas.Congr
 import BiscuitModel.Props.C06
